@@ -1,6 +1,7 @@
 import Fips204.Props.C01
 import Fips204.Props.C15
 import Fips204.Lemmas.HintDuality
+import Fips204.Lemmas.SignerHint
 /-!
 # C01 (continued) — the two arithmetic facts signature correctness rests on
 
@@ -10,6 +11,13 @@ import Fips204.Lemmas.HintDuality
   `w1` once `‖c t0‖∞ < gamma2`.
 * `high_bits_stable_under_small_shift`: if `|LowBits(r)| < gamma2 - b` and `|s| ≤ b` then
   `HighBits(r + s) = HighBits(r)` - why the signer's `‖r0‖∞ < gamma2 - beta` test makes `HighBits(w - c s2) = w1`.
+
+* `signer_hint_coefficient`: the per-coefficient core of completeness - if `|c s2| ≤ beta` (centred), `|LowBits(w - c s2)| <
+  gamma2 - beta` and `|c t0| < gamma2` (centred), then `UseHint(MakeHint(-c t0, w - c s2 + c t0), w - c s2 + c t0) = HighBits(w)`,
+  with `c s2`, `c t0` given by *any* representatives modulo q (the crate's are canonical, the standard's centred).
+* `challenge_times_small_vector_is_small`: `‖c * s‖∞ ≤ tau * eta` (centred) for the negacyclic product of a challenge with
+  exactly `tau` coefficients `±1` and a polynomial with `‖s‖∞ ≤ eta` - so the first hypothesis always holds (`beta = tau * eta`);
+  `challenge_has_weight_tau`: every polynomial `sample_in_ball` returns is such a challenge.
 
 Together with C18 (the pipelines compute ring products), C08 (the encodings round-trip), C09/C11 (all key provenances
 are the same structs) and C02 (verification is Algorithm 8) these are the ingredients of the completeness proof; the
@@ -33,5 +41,21 @@ theorem kernels_use_hint_recovers_high_bits (m : Mode) (g z r : Int) (hg : g = 9
   refine ⟨Spec.makeHint g z r, C15.make_hint_spec m g z r hg h1 h2 h3 h4, ?_⟩
   rw [C15.use_hint_spec m g _ r hg (by split <;> simp) h1 h2, C15.high_bits_spec m g (r + z) hg h3 h4,
     Spec.hint_duality g r z hg hz]
+
+theorem signer_hint_coefficient (g beta w cs2 ct0 : Int) (hg : g = 95232 ∨ g = 261888) (hb : 0 ≤ beta ∧ beta ≤ g)
+    (h1 : -beta ≤ modpm Q cs2 ∧ modpm Q cs2 ≤ beta)
+    (h2 : -(g - beta) < Spec.lowBits g (w - cs2) ∧ Spec.lowBits g (w - cs2) < g - beta)
+    (h3 : -g < modpm Q ct0 ∧ modpm Q ct0 < g) :
+    Spec.useHint g (if Spec.makeHint g (-ct0) (w - cs2 + ct0) then 1 else 0) (w - cs2 + ct0) = Spec.highBits g w :=
+  Impl.coeff_hint g beta w cs2 ct0 hg hb h1 h2 h3
+
+theorem challenge_times_small_vector_is_small (c s : Impl.Poly) (tau eta : Int) (hc : Impl.Tri c) (hn : (Impl.nz c : Int) = tau)
+    (hs : s.length = 256) (hB : ∀ x ∈ s, -eta ≤ x ∧ x ≤ eta) (he : 0 ≤ eta) (hsmall : eta * tau ≤ 4190208) :
+    ∀ x ∈ Impl.cmul c s, -(eta * tau) ≤ modpm Q x ∧ modpm Q x ≤ eta * tau :=
+  Impl.cmul_centered_bound c s tau eta hc hn hs hB he hsmall
+
+theorem challenge_has_weight_tau (m : Mode) (O : Impl.Oracles) (hO : Impl.OracleOk O) (ctest : Bool) (tau : Int) (rho : List Nat)
+    (ht : 0 ≤ tau ∧ tau ≤ 64) : Impl.NoPanic (Impl.sampleInBall m O ctest tau rho) (fun c => Impl.Tri c ∧ Impl.nz c = tau.toNat) :=
+  Impl.sampleInBall_np' m O hO ctest tau rho ht
 
 end Fips204.Props.C01
